@@ -11,7 +11,7 @@ def run(r):
     cmd = ["/verif/tools/mut.py", r["name"], r.get("file", ""), r.get("old", ""), r.get("new", ""), ",".join(r["props"]), "--tier", a.tier]
     if r.get("patch"): cmd += ["--patch", r["patch"]]
     p = subprocess.run(cmd, capture_output=True, text=True)
-    st = {0: "detected", 1: "missed", 3: "caught_by_tests"}.get(p.returncode, f"error{p.returncode}")
+    st = {0: "detected", 1: "missed", 3: "caught_by_tests", 4: "stale_pattern"}.get(p.returncode, f"error{p.returncode}")
     return r, st, p.stdout[-600:] + p.stderr[-300:]
 with cf.ThreadPoolExecutor(a.jobs) as ex:
     res = list(ex.map(run, rows))
